@@ -116,7 +116,7 @@ def corpus():
 
 def gen_obs(rng, kind, frm, to, name):
     import dateutil.rrule
-    y = rng.randrange(1971, 2030)
+    y = rng.randrange(1971, 2030) if rng.random() < 0.8 else rng.randrange(1921, 1970)     # some definitions start long before 1970
     mo = rng.randrange(1, 13)
     d = rng.randrange(1, 29)
     hh = rng.choice([0, 1, 2, 3, 23])
